@@ -19,6 +19,11 @@ const verbose = false
 const verboseGeoJSON = false
 
 func sightline(context *api.Context, from b6.Geometry, radius float64) (b6.Area, error) {
+	if math.IsNaN(radius) || math.IsInf(radius, 0) || radius <= 0 {
+		return nil, fmt.Errorf("expected a radius greater than 0, found %f", radius)
+	} else if from == nil {
+		return nil, fmt.Errorf("expected a geometry, found nothing")
+	}
 	if centroid, ok := b6.Centroid(from); ok {
 		return b6.AreaFromS2Polygon(Sightline(centroid, b6.MetersToAngle(radius), context.World)), nil
 	}
@@ -824,7 +829,11 @@ func possibleEntraces(c *api.Context, area b6.AreaFeature) []b6.Feature {
 	all := make([]b6.Feature, 0)
 	entrances := make([]b6.Feature, 0)
 	for i := 0; i < area.Len(); i++ {
-		boundary := area.Feature(i)[0]
+		paths := area.Feature(i)
+		if len(paths) == 0 {
+			continue // The polygon isn't made from path features
+		}
+		boundary := paths[0]
 		for _, r := range boundary.References() {
 			if point := c.World.FindFeatureByID(r.Source()); point != nil {
 				all = append(all, point)
